@@ -917,8 +917,8 @@ theorem crash_tasks_inv_removal_window {cfg : Cfg} {G : Block} (E : StaticOK cfg
     (ANY: round 4's "in no chain the node has had" is gone), crashes anywhere, iterations, the drain; explicit state
     hypotheses, all of them C08's (`DomW` and the success of the follower's transactions contained in `irun = some`):
     a handled block is on the node's chain (no stale notification inside a removal window) and — when it is the
-    last queued one — its database transaction succeeds; Start succeeds at a crash; `PendOK` at every iteration; the iterations have finished the
-    removal when the drain is called (totality of the loop is proved for round 4's `Mid` only).  NOT covered inside a
+    last queued one — its database transaction succeeds; Start succeeds at a crash; `PendOK` at every iteration and at the drain; the worker's loop
+    completes at the drain (`JRW_removeDrain`; that no iteration fails is proved for round 4's `Mid` only).  NOT covered inside a
     removal window here (covered by `crash_equiv_tasks` for windows without handler steps): CreateWallet / NewAddress
     (no frame lemma of the relaxed state for a growing keystore table). -/
 theorem crash_equiv_tasks_removal_window {cfg : Cfg} {G : Block} (E : StaticOK cfg.st G) (hG : G.txs = [])
@@ -949,6 +949,7 @@ theorem crash_equiv_tasks_removal_window {cfg : Cfg} {G : Block} (E : StaticOK c
 def guardEvW0 (cfg : Cfg) (x : SysQ) (k : SkelT) (ev : EvT) : Prop :=
   match k.busy, ev with
   | some (.rem w), .removeStep _ => PendGuard x.P (addrsOf k.base.ks w)
+  | some (.rem w), .removeDrain _ => PendGuard x.P (addrsOf k.base.ks w)
   | some (.rem _), _ => True
   | _, ev => guardEv cfg x ev
 def GuardW0 (cfg : Cfg) (cr : Bool) : SysQ → SkelT → List EvT → Prop
@@ -957,7 +958,7 @@ def GuardW0 (cfg : Cfg) (cr : Bool) : SysQ → SkelT → List EvT → Prop
 
 /-- NOT PROVED (type-checked statement): `crash_equiv_tasks_removal_window` without the hypotheses inherited from C08's
     open items — success of the follower's transactions / of Start on the partly deleted wallet, no stale notification
-    inside a removal window, the drain called only after the iterations have finished.  (Whether it holds depends on
+    inside a removal window, completion of the worker's loop at the drain.  (Whether it holds depends on
     C08's open totality question: can Rollback fail on stale balance / deposit entries of the wallet being removed?) -/
 def crash_equiv_tasks_removal_window_full : Prop :=
   ∀ {cfg : Cfg} {G : Block}, StaticOK cfg.st G → G.txs = [] → cfg.batch > 0 → cfg.limit > 0 →
@@ -979,7 +980,7 @@ example {cfg : Cfg} {G : Block} {x : SysQ} {k : SkelT} (h : JT cfg G x k) (hb : 
 
 /-- non-vacuity (`MW.Lemmas.Deepen5Ex`): extend b1 · handle · extend c2 · handle · CreateWallet w2 · RemoveWallet w1 · one
     iteration · reorgTo 1 [e2] · HANDLE (a reorganisation on the partly deleted wallet) · reorgTo 1 [c2] · CRASH (c2 queued
-    in the run that never stops: non-quiet; Start reorganises back) · handle · three iterations · removeDrain — every
+    in the run that never stops: non-quiet; Start reorganises back) · handle · removeDrain (the finishing iteration) — every
     hypothesis of `crash_equiv_tasks_removal_window` holds in both runs, and the theorem gives the agreement -/
 example : JTW exCfg MW.Lemmas.Ledger.hxG exX0 exK0T ∧ RunOKW exCfg MW.Lemmas.Ledger.hxG exK0T exEvsR ∧
     (∀ cr, GuardW exCfg cr exX0 exK0T exEvsR) ∧ (skRunT exCfg exK0T exEvsR).busy = none ∧
